@@ -178,9 +178,10 @@ impl<'a, U: User, E: Engine<U>> Dec<'a, U, E> {
     fn dec_obj(&mut self, obj: &dyn CompoundObject<U, E>) -> T {
         let name = obj.type_name();
         if name == "LTerm" {
-            // Option<LTerm>::Some(x) is stored as the LTerm `x` itself acting as the object.
+            // Option<LTerm>::Some(x) is stored as the LTerm `x` itself acting as the object: by
+            // the library's own conversion (`None` is `[]`, `Some(x)` is x's object) it denotes x.
             let inner = obj.as_term().expect("LTerm object without term");
-            return T::Cmp(Tag::Some, vec![self.dec(inner)]);
+            return self.dec(inner);
         }
         let mut fs = vec![];
         for child in obj.children() {
